@@ -171,7 +171,8 @@ class Contract(object):
             for label, src in self.requires:
                 path.assume(zbool(it.spec_bool(src, senv)))
             path.assumed_names = [l for l, _ in self.requires]
-            args = ([selfobj] if selfobj is not None else []) + [env[n] for n in self.params]
+            # on_entry may replace parameter values (ghost-backed stubs)
+            args = ([selfobj] if selfobj is not None else []) + [senv.get(n, env[n]) for n in self.params]
             outcome = None
             try:
                 result = it.run_function(fn, args, kwenv)
